@@ -23,6 +23,8 @@ def _occ_family(sg):
     occ = [[(l, 14)] for l in L]
     for a, b in list(itertools.combinations(L, 2))[:4]:
         occ += [[(a, 14), (b, 8)], [(a, 14), (b, 14)], [(a, 14), (b, 8), (a, 8)]]
+        # one species on several orbits of the same letter: the ranking has to count the atoms per (letter, species), not just see them
+        occ += [[(a, 14), (a, 14), (b, 14)], [(a, 14), (b, 14), (b, 14)]]
     return occ
 
 
@@ -194,7 +196,6 @@ def replay(ob):
     fails = []
     if w.get("missing") and "sg" in w:
         # a normalizer that the table does not represent: the crystal and its image under it are the same crystal described twice
-        import itertools
         from fractions import Fraction
         sg = w["sg"]
         L = _sym.letters_of(sg)[:8]
@@ -222,7 +223,12 @@ def replay(ob):
                 fails.append({"sg": sg, "observed": "%s: %s" % (type(e).__name__, str(e)[:200])})
     for sg in groups[:6]:
         L = _sym.letters_of(sg)
-        for extra in ([(L[0], 29, None)], [(L[0], 29, None), (L[min(1, len(L) - 1)], 47, None)]):
+        P1, P2, P3 = {"x": 0.2113, "y": 0.0687, "z": 0.3391}, {"x": 0.0641, "y": 0.3727, "z": 0.1583}, {"x": 0.3019, "y": 0.1291, "z": 0.0877}
+        INFO0, WY0, NZ0 = tabvc.load_tables()
+        free = [l for l in L[:-1] if WY0[sg][l].get("variables")]
+        # one species on two orbits of one letter and one orbit of another (the ranking has to count atoms per letter and species)
+        twice = [[(a, 29, P1), (a, 29, P2), (b, 29, P3)] for a, b in itertools.permutations(free[:4], 2)][:6]
+        for extra in [[(L[0], 29, None)], [(L[0], 29, None), (L[min(1, len(L) - 1)], 47, None)]] + twice:
             try:
                 at = tr.pinned_probe(sg, extra, npin=1)
                 if len(at) > 200:
